@@ -363,6 +363,8 @@ def match_known(known, prop, h, failed):
             continue
         if k.get("function") and k["function"] != failed["function"]:
             continue
+        if k.get("program") and k["program"] != failed.get("program"):
+            continue
         return k
     return None
 
@@ -565,18 +567,21 @@ def run_e4(prop, hs, tier, engine="e4"):
         sr["programs"] = len(res)
         sr["claims"] = nclaims
         sr["sample_program"] = res[len(res) // 2]["text"]
-        for r in bad[:5]:
+        # programs listed in known_findings.json never take one of the five report slots from a new violation
+        known_progs = {k.get("program") for k in load_known() if k.get("property") == prop and k.get("harness") == h["name"]}
+        bad.sort(key=lambda r: r["name"] in known_progs)
+        for r in [b for b in bad if b["name"] not in known_progs][:5] + [b for b in bad if b["name"] in known_progs]:
             f = r["failed"][0]
             d = os.path.join(REPLAYS, prop)
             os.makedirs(d, exist_ok=True)
             path = os.path.join(d, "%s_%s.txt" % (engine, r["name"]))
             with open(path, "w") as fh:
-                fh.write("# property: %s\n# engine: " + engine + "\n# harness: %s\n# check: %s\n# model: %s\n# program:\n%s" % (
-                    prop, h["name"], f["check"], json.dumps(f.get("model", {})), r["text"]))
+                fh.write("# property: %s\n# engine: %s\n# harness: %s\n# check: %s\n# model: %s\n# program:\n%s" % (
+                    prop, engine, h["name"], f["check"], json.dumps(f.get("model", {})), r["text"]))
             sr["failed"].append({"check": f["check"], "file": "riscv_analysis/src/analysis/available.rs", "line": None,
                                  "function": "AvailableValuePass::run" if engine == "e4" else "LivenessPass::run", "replay": path, "values": f.get("model"),
                                  "dev": "reproduced" if f.get("reproduced") else "not-reproduced",
-                                 "dev_msg": "program %s" % r["name"], "release": None})
+                                 "dev_msg": "program %s" % r["name"], "program": r["name"], "release": None})
         out.append(sr)
     return out
 
@@ -602,20 +607,30 @@ def run_property(prop, tier, seed, jobs, only, write_evidence=True):
         wq.put(i)
     known = load_known()
     results = []
+    n_selected = len(hs)
     e2_hs = [h for h in hs if h.get("engine") == "e2"]
     e3_hs = [h for h in hs if h.get("engine") == "e3"]
     e4_hs = [h for h in hs if h.get("engine") == "e4"]
     e5_hs = [h for h in hs if h.get("engine") == "e5"]
     hs = [h for h in hs if h.get("engine", "kani") == "kani"]
     side = []
+
+    def guarded(fn, group, *a, **kw):
+        """a crash of a side engine is an inconclusive result for every obligation it was given, never a silent loss"""
+        def go():
+            try:
+                results.extend(fn(prop, group, *a, **kw))
+            except Exception as e:
+                results.extend(_side_result(h, "inconclusive", "driver error in side engine: %r" % e, 0, None, 0, []) for h in group)
+        return threading.Thread(target=go)
     if e2_hs:
-        side.append(threading.Thread(target=lambda: results.extend(run_e2(prop, e2_hs))))
+        side.append(guarded(run_e2, e2_hs))
     if e3_hs:
-        side.append(threading.Thread(target=lambda: results.extend(run_e3(prop, e3_hs))))
+        side.append(guarded(run_e3, e3_hs))
     if e4_hs:
-        side.append(threading.Thread(target=lambda: results.extend(run_e4(prop, e4_hs, tier))))
+        side.append(guarded(run_e4, e4_hs, tier))
     if e5_hs:
-        side.append(threading.Thread(target=lambda: results.extend(run_e4(prop, e5_hs, tier, engine="e5"))))
+        side.append(guarded(run_e4, e5_hs, tier, engine="e5"))
     for t in side:
         t.start()
     with cf.ThreadPoolExecutor(max_workers=jobs) as ex:
@@ -644,7 +659,7 @@ def run_property(prop, tier, seed, jobs, only, write_evidence=True):
         if r["verdict"] == "inconclusive":
             inconclusive.append(r)
         for e in r["failed"]:
-            k = match_known(known, prop, r["spec"], {"desc": e["check"], "function": e["function"]})
+            k = match_known(known, prop, r["spec"], {"desc": e["check"], "function": e["function"], "program": e.get("program")})
             if e["dev"] == "reproduced":
                 if k:
                     known_hits.append((r, e, k))
@@ -660,6 +675,9 @@ def run_property(prop, tier, seed, jobs, only, write_evidence=True):
         print("VIOLATION property=%s replay=%s" % (prop, e["replay"]))
         print("   harness %s: %s (%s, %s) dev=%s release=%s" % (
             r["harness"], e["check"], e["function"], e.get("dev_msg", ""), e["dev"], e["release"]))
+    if len(results) != n_selected:
+        print("INCONCLUSIVE property=%s: %d obligations selected but %d results (driver error)" % (prop, n_selected, len(results)))
+        inconclusive.append({"harness": "<driver>", "reason": "result count mismatch"})
     for r, e in nonrepro:
         print("INCONCLUSIVE property=%s harness=%s: counterexample for '%s' did not reproduce natively (%s)" % (
             prop, r["harness"], e["check"], e.get("dev_msg") or e["dev"] or "no playback values"))
